@@ -54,6 +54,7 @@ SockP0(par) ==
    closed   |-> [s \in SSides |-> FALSE],  \* aclose() called on s
    eos      |-> [s \in SSides |-> FALSE],  \* the reader of stream s has seen EndOfStream
    cut      |-> [s \in SSides |-> FALSE],  \* a send on s ended abnormally: tail of stream s undefined
+   undef    |-> [s \in SSides |-> FALSE],  \* ... and another send was started after it: offsets unknown
    rst      |-> FALSE,                     \* the kernel may have reset the connection
    \* leak[s]: side s may be reading from its transport while nobody receives (known finding F10):
    \* never paused since creation, or a receive was cancelled since the last one that certainly waited
@@ -87,6 +88,7 @@ SStart(p, e, op, arg) ==
                         /\ ~p.eofsent[SPeer(e.s)] /\ ~p.closed[e.s] /\ ~p.rst]
   IN [p |-> [p EXCEPT !.ops = @ \cup {o},
                       !.started[e.s] = IF op = "send" THEN @ + arg ELSE @,
+                      !.undef[e.s] = @ \/ (op = "send" /\ p.cut[e.s]),
                       \* data sent towards a side that has closed: the kernel answers with a reset
                       !.rst = @ \/ (op = "send" /\ p.closed[SPeer(e.s)])],
       bad |-> SNames([OneCallPerTask |-> ~SHas(p, e.s, op, e.t)])]
@@ -122,8 +124,12 @@ SSendEnd(p, e) ==
          [p |-> [p1 EXCEPT !.cut[e.s] = TRUE],
           bad |-> SNames(common) \cup SNames([ClosedOnlyWhenClosed |-> p.closed[e.s]])]
     [] e.res = "broken" ->
+         \* (a send after the own send_eof() fails one way or the other: the statement is silent)
          [p |-> [p1 EXCEPT !.cut[e.s] = TRUE],
-          bad |-> SNames(common) \cup SNames([BrokenOnlyWithCause |-> peerGone])]
+          bad |-> SNames(common) \cup SNames([BrokenOnlyWithCause |-> peerGone \/ p.eofsent[e.s]])]
+    [] e.res = "error" ->
+         [p |-> [p1 EXCEPT !.cut[e.s] = TRUE],
+          bad |-> SNames(common) \cup SNames([UnexpectedSendOutcome |-> p.eofsent[e.s]])]
     [] e.res = "cancelled" ->
          [p |-> [p1 EXCEPT !.cut[e.s] = TRUE, !.creq = @ \ {<<e.s, e.t>>}],
           bad |-> SNames(common) \cup SNames([CancelWasRequested |-> <<e.s, e.t>> \in p.creq])]
@@ -143,13 +149,14 @@ SRecvEnd(p, e) ==
                  ClosedReceiveRules |-> o.closed0 => e.res \in {"ok", "closed", "busy", "cancelled", "timeout"}]
   IN
   CASE e.res = "ok" ->
-         [p |-> [p1 EXCEPT !.received[w] = IF e.off = p.received[w] /\ e.match = 1 THEN @ + e.len ELSE @,
+         [p |-> [p1 EXCEPT !.received[w] = IF p.undef[w] \/ (e.off = p.received[w] /\ e.match = 1)
+                                           THEN @ + e.len ELSE @,
                            \* a receive that certainly had to wait has paused the transport again
                            !.leak[e.s] = IF o.certain THEN FALSE ELSE @],
           bad |-> SNames(common) \cup
-                  SNames([InOrderNoLossNoDup |-> e.off = p.received[w],
-                          PayloadIntact |-> e.match = 1,
-                          NoInvention |-> e.off + e.len <= p.started[w],
+                  SNames([InOrderNoLossNoDup |-> p.undef[w] \/ e.off = p.received[w],
+                          PayloadIntact |-> p.undef[w] \/ e.match = 1,
+                          NoInvention |-> p.undef[w] \/ e.off + e.len <= p.started[w],
                           ChunkSize |-> e.len >= 1 /\ e.len <= o.arg,
                           NoDataAfterEndOfStream |-> ~p.eos[w]])]
     [] e.res = "eos" ->
